@@ -55,8 +55,11 @@ MIN_COUNTERS = {
         "exit.MeshVolumeRegion.containsObject.p3_ball_inside": 3,
         "exit.MeshVolumeRegion.containsObject.p5_boolean": 10,
         "exit.PolygonalFootprintRegion.containsObject.convex_polygon": 20,
-        "exit.PolygonalFootprintRegion.containsObject.exact_projection": 3,
+        "exit.PolygonalFootprintRegion.containsObject.exact_projection": 10,
+        "exit.PolygonalFootprintRegion.containsObject.exact_projection.T": 4,
+        "exit.PolygonalFootprintRegion.containsObject.exact_projection.F": 4,
         "exit.Object.minimumDistanceTo.planar_2d": 10,
+        "exit_objreg.Object.intersects.planar_vs_polygonalregion": 4,
         "exit.Object.minimumDistanceTo.general": 200,
     },
 }
@@ -106,21 +109,24 @@ CONTAINER_KINDS = (
     ("hullmesh", 8),
     ("nonconvex", 20),
     ("footprint", 14),
-    ("polygonal", 6),
+    ("footprint_ring", 7),
+    ("polygonal", 10),
     ("inter_mesh", 6),
     ("diff_mesh", 6),
     ("inter_explicit", 6),
     ("diff_explicit", 8),
 )
 
-PAIRS_PER_PROGRAM = 8
-CONTS_PER_PROGRAM = 3
+PAIRS_PER_PROGRAM = 10
+CONTS_PER_PROGRAM = 4
 
 
 def plan(tier, seed):
     n = 16 if tier == "quick" else 64
-    programs = 24 if tier == "quick" else 150
-    return [{"shard": i, "programs": programs, "timeout": 1500 if tier == "quick" else 3400} for i in range(n)]
+    programs = 16 if tier == "quick" else 90
+    # glibc: keep large numpy temporaries on the heap instead of mmap/munmap per array (measured: -40% CPU)
+    env = {"MALLOC_MMAP_THRESHOLD_": "33554432", "MALLOC_TRIM_THRESHOLD_": "1073741824", "MALLOC_TOP_PAD_": "67108864"}
+    return [{"shard": i, "programs": programs, "timeout": 1500 if tier == "quick" else 3400, "env": env} for i in range(n)]
 
 
 # ---------------------------------------------------------------------------------------------
@@ -188,13 +194,14 @@ class Obj:
             ori = f"facing ({yaw}, {pitch}, {roll})"
         else:
             ori = f"with yaw {yaw}, with pitch {pitch}, with roll {roll}"
+        tag = "Range(0, 1)" if self.mode == "sampled_other" else "0"
         return (
             f"{self.name} = new Object at ({x}, {y}, {z}), {ori}, with shape {self.spec.src}, "
-            f"with width {w}, with length {l}, with height {h}, with allowCollisions True, with requireVisible False"
+            f"with width {w}, with length {l}, with height {h}, with allowCollisions True, with requireVisible False, with verifTag {tag}"
         )
 
     def desc(self):
-        return {"kind": self.spec.kind, "dims": self.dims, "pos": self.pos, "ypr": self.ypr, "mode": self.mode, "orient": self.orient_style}
+        return {"kind": self.spec.kind, "shape": self.spec.src, "dims": self.dims, "pos": self.pos, "ypr": self.ypr, "mode": self.mode, "orient": self.orient_style}
 
 
 def _slide_to_contact(A_world, specB, dimsB, yprB, origin, u, tmax):
@@ -262,7 +269,7 @@ def gen_pair(rng, stratum):
     yprB = _ypr(rng, style)
     if stratum == "equal_z":
         yprA = _ypr(rng, "planar") if rng.random() < 0.5 else yprA
-    modes = ["fixed", "fixed", "sampled_pos", "sampled_dims"]
+    modes = ["fixed", "fixed", "sampled_pos", "sampled_dims", "sampled_other"]
     A = Obj(specA, dimsA, posA, yprA, str(rng.choice(modes)), str(rng.choice(["facing", "with"])))
     Aw = A.world()
     meta = {"stratum": stratum}
@@ -349,6 +356,11 @@ def gen_container(rng, kind):
     elif kind == "nonconvex":
         sub = str(rng.choice(["L", "U", "cross", "frame", "vee"]))
         tree, reg, desc = gg.vol_region(rng, sub, centre, size)
+    elif kind == "footprint_ring":
+        out = gg.ring_foot_region(rng, centre, size)
+        if out is None:
+            return None
+        tree, reg, desc = out
     elif kind in ("footprint", "polygonal"):
         out = gg.foot_region(rng, centre, size, as_polygonal=(kind == "polygonal"))
         if out is None:
@@ -404,20 +416,41 @@ def gen_contained(rng, cont):
     from rt import geomgen as gg
     from rt import geomoracle as go
 
+    if cont["kind"] == "footprint_ring":
+        # an object lying flat around the hole: frame / U / L whose opening is about the size of the hole
+        kind = str(rng.choice(["frame", "frame", "U", "L"]))
+        spec = gg.random_shape(rng, kind)
+        rh = cont["desc"]["hole_radius"]
+        dims = (float(rng.uniform(7, 14)) * rh, float(rng.uniform(7, 14)) * rh, float(rng.uniform(0.2, 1.0)))
+        hc = cont["desc"]["hole_centre"]
+        pos = np.array([hc[0], hc[1], float(rng.uniform(-2, 2))]) + np.array([*(rng.uniform(-1.2, 1.2, 2) * rh), 0.0])
+        if kind != "frame":
+            # move the notch of the U / the inner corner of the L towards the hole
+            pos[:2] += rng.uniform(-0.3, 0.3, 2) * np.array(dims[:2])
+        ypr = (float(rng.uniform(-math.pi, math.pi)), 0.0, 0.0) if rng.random() < 0.8 else (float(rng.uniform(-math.pi, math.pi)), float(rng.uniform(-0.3, 0.3)), float(rng.uniform(-0.3, 0.3)))
+        modes = ["fixed", "fixed", "sampled_pos", "sampled_dims", "sampled_other"]
+        return Obj(spec, dims, pos, ypr, str(rng.choice(modes)), "facing"), {"ring": True}
     kinds = list(gg.CONVEX_KINDS) + ["L", "cross", "twobody", "vee", "U"]
     kind = str(rng.choice(kinds if rng.random() < 0.45 else list(gg.CONVEX_KINDS)))
+    flat_planar = cont["kind"] == "polygonal" and rng.random() < 0.5
+    if flat_planar:
+        kind = "box"  # planar box against a flat polygon: the 2D fast path of Object.intersects(PolygonalRegion)
     spec = gg.random_shape(rng, kind)
     anchor, scale = _tree_anchor(rng, cont["tree"])
     s = scale * _logu(rng, 0.05, 0.6)
     dims = tuple(float(s * f) for f in rng.uniform(0.3, 1.0, 3))
     if rng.random() < 0.08:
         dims = tuple(float(d * 6) for d in dims)  # too large for the container
-    style = "planar" if (kind == "box" and rng.random() < 0.4) else "full"
+    style = "planar" if (kind == "box" and (flat_planar or rng.random() < 0.4)) else "full"
     ypr = _ypr(rng, style)
     u = _unit_vec(rng)
     if cont["tree"][0] == "foot" and rng.random() < 0.7:
         u[2] = 0
         u /= np.linalg.norm(u)
+
+    if cont["kind"] == "polygonal" and (flat_planar or rng.random() < 0.6):
+        # near the plane of the flat region, so that `obj intersects region` has both answers (and the planar-box path)
+        anchor = np.array([anchor[0], anchor[1], cont["desc"]["z"] + float(rng.uniform(-1.3, 1.3)) * dims[2]])
 
     def inside(t):
         return go.tree_contains(cont["tree"], spec.world(dims, anchor + t * u, ypr))
@@ -441,7 +474,7 @@ def gen_contained(rng, cont):
     else:
         meta["contact"] = "not-inside-at-anchor"
         pos = anchor + rng.uniform(-0.5, 0.5, 3) * scale
-    modes = ["fixed", "fixed", "sampled_pos", "sampled_dims"]
+    modes = ["fixed", "fixed", "sampled_pos", "sampled_dims", "sampled_other"]
     return Obj(spec, dims, pos, ypr, str(rng.choice(modes)), str(rng.choice(["facing", "with"]))), meta
 
 
@@ -451,6 +484,7 @@ def gen_program(seed, shard, index):
 
     rng = np.random.default_rng([int(seed), int(shard), int(index), 404])
     gg.reset()
+    ostyle = "facing" if index % 2 == 0 else "with"
     objs = []
     pairs = []
     conts = []
@@ -493,13 +527,17 @@ def gen_program(seed, shard, index):
 
     args = []
     for o in objs:
+        o.orient_style = ostyle
         x, y, z = o.pos
         w, l, h = o.dims
         if o.mode == "sampled_pos":
             x = Range(x, x)
         if o.mode == "sampled_dims":
             w = Range(w, w)
-        args.append((o.orient_style, (x, y, z), o.ypr, o.spec.make_shape(), w, l, h))
+        # sampled_other: an unrelated random property => a fresh instance per sample that shares the
+        # occupiedSpace of its (static) parent
+        tag = Range(0, 1) if o.mode == "sampled_other" else 0
+        args.append((o.orient_style, (x, y, z), o.ypr, o.spec.make_shape(), w, l, h, tag))
     gg.registry.ARGS = args
     index = {o.name: i for i, o in enumerate(objs)}
     gg.registry.FIXED_PAIRS = [
@@ -509,16 +547,12 @@ def gen_program(seed, shard, index):
     explicit = ["import verif_geom as G"] + [o.source() for o in objs]
     explicit += [f"param {k} = (o{i} intersects o{j})" for k, i, j in gg.registry.FIXED_PAIRS]
     explicit += [f"param {k} = (o{i} in G.region({r}))" for k, i, r in gg.registry.FIXED_CONTS]
-    return {"source": PROGRAM, "explicit": "\n".join(explicit) + "\n", "objs": objs, "pairs": pairs, "conts": conts}
+    return {"source": PROGRAMS[ostyle], "explicit": "\n".join(explicit) + "\n", "objs": objs, "pairs": pairs, "conts": conts}
 
 
-PROGRAM = """
+_PROGRAM = """
 import verif_geom as G
-def _mk_facing(p, f, s, w, l, h):
-    return new Object at p, facing f, with shape s, with width w, with length l, with height h, with allowCollisions True, with requireVisible False
-def _mk_with(p, f, s, w, l, h):
-    return new Object at p, with yaw f[0], with pitch f[1], with roll f[2], with shape s, with width w, with length l, with height h, with allowCollisions True, with requireVisible False
-objs = [(_mk_facing if a[0] == 'facing' else _mk_with)(a[1], a[2], a[3], a[4], a[5], a[6]) for a in G.ARGS]
+objs = [new Object at a[1], @ORI@, with shape a[3], with width a[4], with length a[5], with height a[6], with allowCollisions True, with requireVisible False, with verifTag a[7] for a in G.ARGS]
 def _op_intersects(a, b):
     return a intersects b
 def _op_in(a, r):
@@ -528,15 +562,104 @@ param op_in = _op_in
 param pi = {k: (objs[i] intersects objs[j]) for (k, i, j) in G.FIXED_PAIRS}
 param pc = {k: (objs[i] in G.region(r)) for (k, i, r) in G.FIXED_CONTS}
 """
+PROGRAMS = {
+    "facing": _PROGRAM.replace("@ORI@", "facing a[2]"),
+    "with": _PROGRAM.replace("@ORI@", "with yaw a[2][0], with pitch a[2][1], with roll a[2][2]"),
+}
+
 
 
 
 # ---------------------------------------------------------------------------------------------
 # evaluation
 # ---------------------------------------------------------------------------------------------
+def _fcl_reference_distance(A, B):
+    """What python-fcl itself answers on geometry built from the *oracle's* data (convex: hull of the world
+    vertices of the single piece; non-convex: the input mesh mapped by the oracle's own affine map).  Used only
+    to attribute a wrong minimumDistanceTo to the third-party library: the attribution holds only if Scenic's
+    number equals this one."""
+    import fcl
+    from rt import geomgen as gg
+    from scipy.spatial import ConvexHull
+
+    def geom(o):
+        if o.spec.convex:
+            V = np.ascontiguousarray(o.world()[0].V)
+            hull = ConvexHull(V)
+            # outward-oriented triangles
+            tris = []
+            c = V.mean(axis=0)
+            for simplex, eq in zip(hull.simplices, hull.equations):
+                i, j, k = simplex
+                n = np.cross(V[j] - V[i], V[k] - V[i])
+                if n @ eq[:3] < 0:
+                    j, k = k, j
+                tris.append((3, i, j, k))
+            faces = np.array(tris, dtype=np.int64).flatten()
+            return fcl.Convex(V, len(tris), faces)
+        mesh = gg.registry.MESHES[o.spec.mesh_id]
+        M, t = gg.raw_to_world(o.spec, o.dims, o.pos, o.ypr)
+        V = np.ascontiguousarray(np.asarray(mesh.vertices) @ M.T + t)
+        g = fcl.BVHModel()
+        g.beginModel(num_tris_=len(mesh.faces), num_vertices_=len(V))
+        g.addSubModel(V, np.asarray(mesh.faces))
+        g.endModel()
+        return g
+
+    oa = fcl.CollisionObject(geom(A), fcl.Transform())
+    ob = fcl.CollisionObject(geom(B), fcl.Transform())
+    return fcl.distance(oa, ob)
+
+
+def _as_plain_boxes(A, B):
+    """The two objects with any `initial_rotation` dropped (what the planar fast paths assume)."""
+    from rt import geomgen as gg
+
+    solid, _src = gg._primitive("box")
+    plain = gg.ShapeSpec("box", solid, "BoxShape()", True)
+    return [plain.world(o.dims, o.pos, o.ypr) if o.spec.kind == "box" else o.world() for o in (A, B)]
+
+
 def classify(kind, detail):
-    """Mechanism keys for genuine defects (narrow; anything else stays unclassified)."""
-    return detail.get("key")
+    """Mechanism keys for genuine defects.  Each key is given only when the mechanism is *confirmed* on the case
+    (the wrong number / answer is reproduced from the hypothesised cause); anything else stays unclassified."""
+    from rt import geomoracle as go
+
+    A, B = detail["A"], detail["B"]
+    if kind in ("mindist_bracket", "intersects", "mindist_positive_overlap") and detail.get("planar_exit"):
+        # Object._isPlanarBox only looks at the class of the shape and at pitch/roll of the object: a BoxShape
+        # built with `initial_rotation` is not a box aligned with the object's frame, yet takes the 2D fast paths.
+        # Confirmed when the answer is the exact answer for the same two objects without their initial_rotation.
+        if any("initial_rotation" in o.spec.params for o in (A, B)):
+            Wa, Wb = _as_plain_boxes(A, B)
+            if kind == "intersects":
+                t2, _ = go.overlap(Wa, Wb)
+                if t2 is None or t2 == detail["answer"]:
+                    return "planar-box.ignores-initial-rotation"
+            else:
+                lo, hi = go.distance_bracket(Wa, Wb)
+                # the planar path reports the 2D distance of the footprints; with equal z that is the 3D gap
+                if lo - 1e-6 <= detail["d"] <= hi + 1e-6:
+                    return "planar-box.ignores-initial-rotation"
+        return None
+    if kind == "mindist_positive_overlap":
+        # FCL's distance with a triangle-soup (BVH) model is a surface-to-surface distance: when one object lies
+        # wholly inside the other's material the surfaces do not touch and a positive distance is reported.
+        # Confirmed when FCL run on the oracle's own geometry reports the same number.
+        if (not A.spec.convex) or (not B.spec.convex):
+            ref = _fcl_reference_distance(A, B)
+            if abs(ref - detail["d"]) <= 1e-7 * max(1.0, abs(ref)):
+                return "mindist.surface-distance-when-enclosed"
+        return None
+    if kind == "mindist_bracket":
+        # FCL 0.7 GJK distance (used whenever at least one side is an fcl.Convex) stops early: it returns the
+        # distance between two points that do lie on the two objects but are not the closest pair (an
+        # over-estimate).  Confirmed when FCL run on the oracle's own geometry reports the same number.
+        if (A.spec.convex or B.spec.convex) and detail["over"] and detail["general"]:
+            ref = _fcl_reference_distance(A, B)
+            if abs(ref - detail["d"]) <= 1e-7 * max(1.0, abs(ref)):
+                return "mindist.fcl-gjk-overestimate"
+    return None
 
 
 def _exits(tr, fn):
@@ -582,6 +705,26 @@ def run_program(seed, shard, index, tr, res, bump, only_case=None):
         if max(abs(p[k] - o.pos[k]) for k in range(3)) > 1e-12 or abs(so.width - o.dims[0]) > 1e-12:
             res["violations"].append({"key": None, "what": f"object {o.name} not created at the specified pose/size", "witness": {"seed": seed, "shard": shard, "index": index, "case": "program"}})
             return
+    # monitor: the occupied space Scenic built is the specified solid (mesh vertices inside the oracle's union,
+    # same bounding box) -- checks _scaledShape / shared occupiedSpace / transform composition
+    for o in prog["objs"]:
+        so = byname[o.name]
+        W = o.world()
+        try:
+            mv = np.asarray(so.occupiedSpace.mesh.vertices)
+        except Exception as e:  # noqa
+            res["violations"].append({"key": None, "what": f"occupiedSpace of {o.name} raised {type(e).__name__}: {e}", "witness": {"seed": seed, "shard": shard, "index": index, "case": "program", "O": o.desc()}})
+            continue
+        allv = np.vstack([P.V for P in W])
+        scale = max(1.0, float(np.abs(allv).max()))
+        bad = max(np.abs(mv.min(axis=0) - allv.min(axis=0)).max(), np.abs(mv.max(axis=0) - allv.max(axis=0)).max())
+        if len(mv) <= 700:
+            out = max(min(-P.contains_point_margin(v) for P in W) for v in mv)
+        else:
+            out = 0.0
+        bump("occupied_space_checks")
+        if bad > 2e-6 * scale or out > 2e-6 * scale:
+            res["violations"].append({"key": None, "what": f"occupiedSpace mesh of a {o.spec.kind} ({o.mode}) differs from the specified solid: bounds off by {bad:.3g}, vertex outside by {out:.3g}", "witness": {"seed": seed, "shard": shard, "index": index, "case": "program", "O": o.desc()}})
     op_i = scene.params["op_intersects"]
     op_c = scene.params["op_in"]
 
@@ -593,7 +736,7 @@ def run_program(seed, shard, index, tr, res, bump, only_case=None):
     def count_exits(ev, decided_only=True):
         for q, label, rv in ev:
             bump(f"exit.{q}.{label}")
-            if label in ("p3_convex_result", "p4_interior_point", "p5_boolean", "planar_polygons", "p2_convex_vertices"):
+            if label in ("p3_convex_result", "p4_interior_point", "p5_boolean", "planar_polygons", "p2_convex_vertices", "exact_projection", "hull_inside"):
                 bump(f"exit.{q}.{label}.{rv}")
 
     # ---- pairs ------------------------------------------------------------------------------
@@ -630,6 +773,7 @@ def run_program(seed, shard, index, tr, res, bump, only_case=None):
         exits2 = [f"{q.split('.')[-2]}.{q.split('.')[-1]}:{l}:{rv}" for q, l, rv in ev2]
         desc["exits"] = exits1
         desc["exits_rev"] = exits2
+        pair_key = None
         for who, r, e in (("A.intersects(B)", r1, e1), ("B.intersects(A)", r2, e2)):
             if e is not None:
                 bump("scenic_exceptions")
@@ -638,7 +782,10 @@ def run_program(seed, shard, index, tr, res, bump, only_case=None):
                 continue
             if truth is not None and bool(r) != truth:
                 bump("disagreements")
-                viol(case, f"[{meta['stratum']}] {A.spec.kind}/{B.spec.kind} {who} = {bool(r)} but exact geometry says overlap={truth} ({_fmt(info)}) exits={exits1 if who[0] == 'A' else exits2}", desc)
+                ex = exits1 if who[0] == "A" else exits2
+                key = classify("intersects", {"A": A, "B": B, "answer": bool(r), "planar_exit": any(":planar_" in e for e in ex)})
+                pair_key = key
+                viol(case, f"[{meta['stratum']}] {A.spec.kind}/{B.spec.kind} {who} = {bool(r)} but exact geometry says overlap={truth} ({_fmt(info)}) exits={ex}", desc, key)
         if e1 is None and e2 is None:
             bump("symmetry_checked")
             if bool(r1) != bool(r2) and truth is None:
@@ -650,7 +797,7 @@ def run_program(seed, shard, index, tr, res, bump, only_case=None):
         if pn in scene.params["pi"] and truth is not None:
             bump("operator_in_program")
             if bool(scene.params["pi"][pn]) != truth:
-                viol(case, f"`{A.name} intersects {B.name}` evaluated in the program = {scene.params['pi'][pn]} but overlap={truth}", desc)
+                viol(case, f"`{A.name} intersects {B.name}` evaluated in the program = {scene.params['pi'][pn]} but overlap={truth}", desc, pair_key)
         # minimum distance
         d, ed, evd = _exits(tr, lambda: a.minimumDistanceTo(b))
         count_exits(evd)
@@ -664,7 +811,7 @@ def run_program(seed, shard, index, tr, res, bump, only_case=None):
             bump("mindist_overlap_cases")
             if d > 0:
                 bump("disagreements")
-                key = None
+                key = classify("mindist_positive_overlap", {"A": A, "B": B, "d": d, "planar_exit": desc["exits_dist"] == ["planar_2d"]})
                 viol(case, f"[{meta['stratum']}] {A.spec.kind}/{B.spec.kind} minimumDistanceTo = {d:.6g} > 0 although the objects definitely overlap (depth {info['depth']:.3g}) exits={desc['exits_dist']}", desc, key)
         elif truth is False:
             lo, hi = go.distance_bracket(Aw, Bw)
@@ -675,7 +822,9 @@ def run_program(seed, shard, index, tr, res, bump, only_case=None):
                 bump("mindist_wide_bracket")
             if not (lo - tol <= d <= hi + tol):
                 bump("disagreements")
-                viol(case, f"[{meta['stratum']}] {A.spec.kind}/{B.spec.kind} minimumDistanceTo = {d:.9g} outside the certified bracket [{lo:.9g}, {hi:.9g}] exits={desc['exits_dist']}", desc)
+                relerr = max(lo - d, d - hi) / max(hi, 1e-12)
+                key = classify("mindist_bracket", {"A": A, "B": B, "d": d, "planar_exit": desc["exits_dist"] == ["planar_2d"], "over": d > hi, "general": desc["exits_dist"] == ["general"]})
+                viol(case, f"[{meta['stratum']}] {A.spec.kind}/{B.spec.kind} minimumDistanceTo = {d:.9g} outside the certified bracket [{lo:.9g}, {hi:.9g}] (relative error {relerr:.2g}) exits={desc['exits_dist']}", desc, key)
         # shortcut-free re-evaluation: plain MeshVolumeRegions of the world meshes
         if k % 3 == 0 and truth is not None:
             def direct():
@@ -716,21 +865,31 @@ def run_program(seed, shard, index, tr, res, bump, only_case=None):
         count_exits(ev)
         exits = [f"{q.split('.')[-2]}.{q.split('.')[-1]}:{l}:{rv}" for q, l, rv in ev]
         desc["exits"] = exits
+        key = None
+        if e is None and "initial_rotation" in O.spec.params and O.ypr[1] == 0 and O.ypr[2] == 0 and any("PolygonalFootprintRegion" in x for x in exits):
+            # Object._boundingPolygon fast case; confirmed when the answer is the exact one for the unrotated box
+            t2 = go.tree_contains(cont["tree"], _as_plain_boxes(O, O)[0])
+            if t2 is None or t2 == bool(r):
+                key = "planar-box.ignores-initial-rotation"
         if e is not None:
             bump("scenic_exceptions")
             if truth is not None:
                 viol(case, f"[{cont['kind']}] containsObject raised {e} (oracle: contained={truth})", desc)
         elif truth is not None and bool(r) != truth:
             bump("disagreements")
-            viol(case, f"[{cont['kind']}:{type(reg).__name__}] {O.spec.kind} containsObject = {bool(r)} but exact geometry says contained={truth} exits={exits}", desc)
+            viol(case, f"[{cont['kind']}:{type(reg).__name__}] {O.spec.kind} containsObject = {bool(r)} but exact geometry says contained={truth} exits={exits}", desc, key)
         pn = f"pc_{O.name}"
         if pn in scene.params["pc"] and truth is not None:
             bump("operator_in_program")
             if bool(scene.params["pc"][pn]) != truth:
-                viol(case, f"`{O.name} in region` evaluated in the program = {scene.params['pc'][pn]} but contained={truth}", desc)
+                viol(case, f"`{O.name} in region` evaluated in the program = {scene.params['pc'][pn]} but contained={truth}", desc, key)
         # object intersects region (leaf regions only)
+        # (a PolygonalRegion is the flat polygon at height z; a footprint is the infinite prism)
         if cont["tree"][0] in ("vol", "foot"):
-            ot = go.tree_overlaps(cont["tree"], Ow)
+            itree = cont["tree"]
+            if cont["kind"] == "polygonal":
+                itree = ("flat", cont["tree"][1], cont["tree"][2], cont["desc"]["z"])
+            ot = go.tree_overlaps(itree, Ow)
             if ot is not None:
                 ri, ei, evi = _exits(tr, lambda: o.intersects(reg))
                 bump("object_region_intersects")
@@ -741,7 +900,12 @@ def run_program(seed, shard, index, tr, res, bump, only_case=None):
                     viol(case, f"[{cont['kind']}] obj.intersects(region) raised {ei} (oracle: {ot})", desc)
                 elif bool(ri) != ot:
                     bump("disagreements")
-                    viol(case, f"[{cont['kind']}:{type(reg).__name__}] {O.spec.kind} obj.intersects(region) = {bool(ri)} but exact geometry says {ot} exits={[l for _, l, _ in evi]}", desc)
+                    okey = None
+                    if cont["desc"].get("centerMesh") is False and ot is True and any(l == "p1_spheres_apart" for _, l, _ in evi):
+                        # pass 1 measures the centre distance from region.position but the region's circumradius
+                        # about the world origin (regions.py MeshVolumeRegion._circumradius, plain-mesh branch)
+                        okey = "meshregion.circumradius-about-origin"
+                    viol(case, f"[{cont['kind']}:{type(reg).__name__}] {O.spec.kind} obj.intersects(region) = {bool(ri)} but exact geometry says {ot} exits={[l for _, l, _ in evi]}", desc, okey)
 
 
 def _fmt(info):
@@ -758,6 +922,9 @@ def run_shard(spec):
     def bump(k, n=1):
         C[k] = C.get(k, 0) + n
 
+    from rt import geomgen
+
+    geomgen.calm_thread_pools()
     tr = trace.ExitTracer(TARGETS)
     tr.install()
     # oracle self-consistency on this shard's seed (cheap)
